@@ -48,7 +48,7 @@ class Contract:
     def __init__(self, name, params, returns=None, requires=(), ensures=(), pure=False, reads="*",
                  modifies=(), loops=None, raises=None, props=(), verify=True, note="", let=None,
                  observer=False, inline_calls=(), fresh_result=False, decreases=None, trusted=False,
-                 allow_raise=False, ghosts=None, inst_depth=4, split=1, dispatch=None):
+                 allow_raise=False, ghosts=None, inst_depth=4, split=1, dispatch=None, heap_closure=False):
         self.name = name
         self.params = dict(params)
         self.returns = returns
@@ -68,6 +68,7 @@ class Contract:
         self.inline_calls = list(inline_calls)
         self.fresh_result = fresh_result
         self.allow_raise = allow_raise
+        self.heap_closure = heap_closure   # assume the heap-closure-at-entry axiom for reference fields (see DESIGN 3.3)
         self.dispatch = dispatch       # callable(args, kwargs) -> name of the contract to apply (overloaded external methods)
         self.split = split             # obligations of this function are solved by `split` processes (each re-executes the body)
         self.inst_depth = inst_depth   # how deep callee/observer ensures are instantiated inside specifications
